@@ -28,6 +28,20 @@ ACTS2 = [(("DELETE", "SET NULL"),), (("UPDATE", "NO ACTION"),), (("DELETE", "SET
          (("DELETE", "CASCADE"), ("UPDATE", "SET NULL"))]
 
 
+# CHECK expressions: comparisons, IN lists, function calls, AND / BETWEEN ... and four forms the expression grammar does not reach
+CK_EXPRS = ["d > 0", "d IN (1, 2, 3)", "length(b) > 0", "d > 0 AND d < 10", "d BETWEEN 1 AND 5", "b IN ('x', 'y')", "d <> 5", "rs.f(d) > 0", "d % 2 = 0"]
+CK_BEYOND = ["(d > 0)", "d >= 0 OR b IS NULL", "lower(b) = b", "b LIKE 'a%'"]
+
+
+def stmt_text(st):
+    """text of a reported CHECK statement (an IN list is reported as {'in_statement': {'name': .., 'in': [..]}})"""
+    if isinstance(st, list) and len(st) == 1:
+        st = st[0]
+    if isinstance(st, dict) and "in_statement" in st:
+        return "%s IN (%s)" % (st["in_statement"].get("name"), ", ".join(map(str, st["in_statement"].get("in", []))))
+    return str(st or "")
+
+
 def items():
     out = []
     for k in (1, 2, 3):
@@ -52,12 +66,16 @@ def items():
     out.append(["fk", ["b", "c"], "fk_n", ["x", "y"], '"r.s"', [["DELETE", "CASCADE"]]])
     out.append(["iref", "b", "x", '"r.s"', []])
     for name in (None, "ck_n"):
-        out.append(["ck", "d > 0", name])
+        for expr in CK_EXPRS + CK_BEYOND:
+            out.append(["ck", expr, name])
     # inline forms
     for c in ("a", "c"):
         out.append(["ipk", c])
         out.append(["iuq", c])
         out.append(["ick", c, c + " > 1"])
+        out.append(["ick", c, c + " IN (1, 2)"])
+        out.append(["ick", c, "abs(%s) > 1" % c])
+        out.append(["ick", c, "%s > 1 AND %s < 9" % (c, c)])
     for c in ("b", "d"):
         for rc in ("x", None):
             for sch in (None, "rs"):
@@ -162,12 +180,14 @@ def gen_cases(tier):
             # two-word actions are a known defect family: pair them only with a small partner set to keep the case count down
             if (two_word(a) or two_word(b)) and not (a[0] in ("pk", "ck") or b[0] in ("pk", "ck")):
                 continue
+            if any(x[0] == "ck" and x[1] not in CK_EXPRS[:3] for x in (a, b)):
+                continue  # three CHECK expressions take part in pairs; the others (and the unsupported forms) are enumerated alone
             cases.append({"items": [a, b], "pos": "end"})
     for i in I:
         if not is_inline(i):
             for j in (0, 1, 2, 3):
                 cases.append({"items": [i], "pos": j})
-    R = [i for i in I if not two_word(i) and (i[0] not in ("fk", "iref") or (i[0] == "fk" and i[5] in ([], [["DELETE", "CASCADE"]]) and i[4] is None)
+    R = [i for i in I if not two_word(i) and not (i[0] == "ck" and i[1] not in CK_EXPRS[:3]) and (i[0] not in ("fk", "iref") or (i[0] == "fk" and i[5] in ([], [["DELETE", "CASCADE"]]) and i[4] is None)
                                                or (i[0] == "iref" and i[4] == [] and i[3] is None))]
     # every ordered triple of UNIQUE clauses (the bookkeeping of unnamed / named / compound uniques interacts)
     U = [i for i in I if i[0] == "uq"]
@@ -180,7 +200,7 @@ def gen_cases(tier):
             for j in (1, 2, 3):
                 cases.append({"items": [a, b], "pos": j})
     if tier == "thorough":
-        R = [i for i in I if not two_word(i) and (i[0] not in ("fk", "iref") or (i[0] == "fk" and i[5] in ([], [["DELETE", "CASCADE"]]) and i[4] is None)
+        R = [i for i in I if not two_word(i) and not (i[0] == "ck" and i[1] not in CK_EXPRS[:3]) and (i[0] not in ("fk", "iref") or (i[0] == "fk" and i[5] in ([], [["DELETE", "CASCADE"]]) and i[4] is None)
                                                    or (i[0] == "iref" and i[4] == [] and i[3] is None))]
         for a, b, c in itertools.permutations(R, 3):
             if compatible(a, b) and compatible(a, c) and compatible(b, c):
@@ -232,6 +252,8 @@ def features(case):
             f.append("uq1-unnamed:before-its-column")
     if any(i[0] == "uq" and len(i[1]) == 1 and i[2] for i in its):
         f.append("uq1-named")
+    if any(i[0] == "ck" and i[1] in CK_BEYOND for i in its):
+        f.append("check-expr:beyond-comparison-grammar")
     return f
 
 
@@ -288,13 +310,13 @@ def check(case, r):
             D.append(diff("checks", "checks-differ", [i[1:] for i in exp_ck], got))
         else:
             for it, ck in zip(exp_ck, got):
-                if not isinstance(ck, dict) or ck.get("constraint_name") != it[2] or str(ck.get("statement", "")).replace(" ", "") != it[1].replace(" ", ""):
+                if not isinstance(ck, dict) or ck.get("constraint_name") != it[2] or stmt_text(ck.get("statement", "")).replace(" ", "") != it[1].replace(" ", ""):
                     D.append(diff("checks", "checks-differ", it[1:], ck))
     for it in its:
         if it[0] == "ick":
             ck = cols.get(it[1], {}).get("check")
-            txt = ck.get("statement") if isinstance(ck, dict) else ck
-            if str(txt or "").replace(" ", "") != it[2].replace(" ", ""):
+            txt = ck.get("statement") if (isinstance(ck, dict) and "statement" in ck) else ck
+            if stmt_text(txt).replace(" ", "") != it[2].replace(" ", ""):
                 D.append(diff("column %s check" % it[1], "inline-check-differs", it[2], ck))
             elif iname(it) and isinstance(ck, dict) and ck.get("constraint_name") != iname(it):
                 D.append(diff("column %s check" % it[1], "inline-check-name-differs", iname(it), ck))
